@@ -36,7 +36,13 @@ def build(model_module) -> Tuple[World, Interp, List[Tuple[FunctionInfo, Contrac
         world.class_id(node.name)
     for node, live in classes:
         fields = {a.name: FieldSpec(["other"]) for a in attrs.fields(live)}
-        world.classes[node.name] = ClassInfo(node.name, fields, {})
+        world.classes[node.name] = ClassInfo(node.name, fields, {}, bases=[ast.unparse(b) for b in node.bases])
+    # plain (non-attrs) classes of the module that model classes derive from: mixins carrying shared helpers
+    attrs_names = {n.name for n, _ in classes}
+    for node in tree.body:
+        if isinstance(node, ast.ClassDef) and node.name not in attrs_names:
+            world.class_id(node.name)
+            world.classes[node.name] = ClassInfo(node.name, {}, {sub.name: f"{REL}::{node.name}.{sub.name}" for sub in node.body if isinstance(sub, ast.FunctionDef)}, bases=[ast.unparse(b) for b in node.bases])
     load_module(world, interp, os.path.join(REPO, REL), "model", REL)
     for node, live in classes:
         world.namespaces["model"][node.name] = VClass(node.name, world.class_id(node.name))
